@@ -353,7 +353,8 @@ def handle (st : State) (cmd : String) (inp obsToks : List String) : State × St
                 | some rate, some lag =>
                   match (pre[h]!).applyMortality rate lag with
                   | .ok c' => if c' == post[h]! then none else
-                      some s!"PROPFAIL C16 per_host_mortality host={h} rate={rate} lag={lag} pre={HostEng.showCell (pre[h]!)} post={HostEng.showCell (post[h]!)}"
+                      some (s!"PROPFAIL C16 per_host_mortality host={h} rate={rate} lag={lag} pre={HostEng.showCell (pre[h]!)} post={HostEng.showCell (post[h]!)}" ++
+                        s!" ;; PROPFAIL C11 per_host_parameters host={h} own row: rate={rate} lag={lag} pre={HostEng.showCell (pre[h]!)} post={HostEng.showCell (post[h]!)}")
                   | .error _ => some s!"MISMATCH mh.mortality host={h} model throws"
                 | _, _ => some s!"MISMATCH mh.mortality host={h} has no table entry"
             match bad with
